@@ -367,6 +367,7 @@ var a2Exceptions = map[string]a2Exception{
 		}
 		return true, "C05 holds: units are independent"
 	}},
+	"pkg/gengo/internal.(*Dumper).ValueLit|reflect-mapkeys": {"the keys are first rendered by a printer whose namer keeps nothing and without options (so no callback runs), collected, and put in the order of that rendering before the real rendering starts; keys whose stateless rendering ties have the same types and values, render identically with the real namer and register the same packages in the same order", sideMapKeysPreordered},
 	"pkg/gengo/snippet.Args.Args$1|map-range": {"the iterator yields the bindings in map order; its only consumer stores them keyed by name", sideArgsKeyedOnly},
 	"pkg/gengo/snippet.Args.Args|maps-iter":   {"maps.All(args) yields the bindings in map order; its only consumer stores them keyed by name", sideArgsKeyedOnly},
 	"pkg/types.(*Universe).LocateInPackage|map-range": {"first match on SourceDir(): a find-unique over packages (one package per directory); not on any output path", func(p *core.Program, f *core.Func, os OrderSource) (bool, string) {
@@ -765,3 +766,142 @@ var sideArgsKeyedOnly = func(p *core.Program, f *core.Func, os OrderSource) (boo
 		}
 		return true, fmt.Sprintf("%d consumer(s), all keyed stores", n)
 	}
+
+// sideMapKeysPreordered: the side condition of the reviewed exception for the value printer's map arm.
+//   - the loop over rv.MapKeys() only collects into one slice;
+//   - the only call it evaluates (besides order-free ones) is the printer itself, with the key as its only argument (no
+//     option functions), on a local printer built here as &Dumper{namer: T{}} with T a field-less struct type of the
+//     package whose Name method is a single return over getters of the name it is given;
+//   - the collected slice is sorted by the field that holds that rendering before anything else uses it.
+func sideMapKeysPreordered(p *core.Program, f *core.Func, os OrderSource) (bool, string) {
+	info := f.Info()
+	call, _ := os.Node.(*ast.CallExpr)
+	var rs *ast.RangeStmt
+	for _, n := range core.PathTo(f.Body, call) {
+		if r2, ok := n.(*ast.RangeStmt); ok && r2.X == ast.Expr(call) {
+			rs = r2
+		}
+	}
+	if rs == nil {
+		return false, "rv.MapKeys() is not the operand of a range loop"
+	}
+	sh := rangeBodyShape(info, rs)
+	if !sh.KeyedOnly || len(sh.Collected) != 1 {
+		return false, "the loop over the keys does more than collecting them: " + strings.Join(sh.Other, "; ")
+	}
+	coll := sh.Collected[0]
+	self := f.Root().Obj()
+	var orderField *types.Var
+	for _, c := range sh.Calls {
+		if free, _ := orderFreeCall(p, info, c, 0, map[*types.Func]bool{}); free {
+			continue
+		}
+		if core.CalleeFunc(info, c) != self || len(c.Args) != 1 || c.Ellipsis.IsValid() || core.VarOf(info, c.Args[0]) != core.VarOf(info, rs.Value) || rs.Value == nil {
+			return false, "`" + core.ExprStr(c) + "` is evaluated per key in map order and is neither order-free nor the option-less stateless rendering of the key"
+		}
+		// the receiver: a local &Dumper{namer: T{}}
+		rv := core.VarOf(info, recvOf(c))
+		if rv == nil {
+			return false, "the ordering pass renders with `" + core.ExprStr(recvOf(c)) + "`, not with a local printer"
+		}
+		d, ok := core.SingleDef(info, f.Root().Body, rv)
+		if !ok {
+			return false, "the ordering printer is assigned more than once"
+		}
+		inits, ok := structInits(info, f.Root().Body, d.Rhs)
+		if !ok || len(inits) != 1 {
+			return false, "the ordering printer is not built from a literal with just a namer"
+		}
+		for fld, v := range inits {
+			cl, isLit := ast.Unparen(v).(*ast.CompositeLit)
+			if !isLit || len(cl.Elts) != 0 {
+				return false, "the namer of the ordering printer is not an empty literal"
+			}
+			nt, _ := info.TypeOf(cl).(*types.Named)
+			st, _ := info.TypeOf(cl).Underlying().(*types.Struct)
+			if nt == nil || st == nil || st.NumFields() != 0 || nt.Obj().Pkg() != f.Pkg.Types {
+				return false, "the namer of the ordering printer (field " + fld.Name() + ") is not a field-less struct type of the package: it can keep state"
+			}
+			// its Name method: a single return, no writes, getters only
+			var nm *core.Func
+			for i := 0; i < nt.NumMethods(); i++ {
+				if nt.Method(i).Name() == "Name" {
+					nm = p.FuncOfObj(nt.Method(i))
+				}
+			}
+			if nm == nil || singleReturn(nm) == nil || len(nonLocalWrites(nm)) != 0 {
+				return false, "the Name method of the ordering namer is not a single return without writes"
+			}
+			for _, nc := range core.Calls(nm.Body, false) {
+				name := core.CalleeName(nm.Info(), nc)
+				if !strings.HasPrefix(name, "("+core.G("pkg/types.TypeName")+").") && !strings.HasPrefix(name, "(*go/types.") && !strings.HasPrefix(name, "(go/types.") && !strings.HasPrefix(name, "strings.") {
+					return false, "the ordering namer calls " + name
+				}
+			}
+		}
+		// which field of the collected element holds the rendering
+		for _, n := range core.PathTo(rs.Body, c) {
+			if kv, ok := n.(*ast.KeyValueExpr); ok && ast.Unparen(kv.Value) == ast.Expr(c) {
+				if id, ok := kv.Key.(*ast.Ident); ok {
+					orderField = fieldVarOf(info, id)
+				}
+			}
+		}
+	}
+	if orderField == nil {
+		return false, "the stateless rendering of the key is not stored in a field of the collected element"
+	}
+	// sorted by that field before any other use
+	g := graph(f)
+	done := g.BlockOf(kindRangeDone, rs)
+	if done == nil {
+		return false, "loop exit not found"
+	}
+	isOrderSort := func(n ast.Node) bool {
+		for _, sc := range core.Calls(n, true) {
+			switch core.CalleeName(info, sc) {
+			case "sort.Slice", "sort.SliceStable":
+			default:
+				continue
+			}
+			if len(sc.Args) != 2 || core.VarOf(info, sc.Args[0]) != coll {
+				continue
+			}
+			lit, ok := ast.Unparen(sc.Args[1]).(*ast.FuncLit)
+			if !ok || len(lit.Body.List) != 1 {
+				continue
+			}
+			ret, ok := lit.Body.List[0].(*ast.ReturnStmt)
+			if !ok || len(ret.Results) != 1 {
+				continue
+			}
+			b, ok := ast.Unparen(ret.Results[0]).(*ast.BinaryExpr)
+			if !ok || (b.Op != token.LSS && b.Op != token.GTR) {
+				continue
+			}
+			side := func(e ast.Expr) bool {
+				sel, ok := ast.Unparen(e).(*ast.SelectorExpr)
+				if !ok || core.FieldOf(info, sel) != orderField {
+					return false
+				}
+				ix, ok := ast.Unparen(sel.X).(*ast.IndexExpr)
+				return ok && core.VarOf(info, ix.X) == coll
+			}
+			if side(b.X) && side(b.Y) {
+				return true
+			}
+		}
+		return false
+	}
+	tp, early := g.Reach(cfgxPoint{B: done, I: 0}, true, cfgxQuery{
+		Target: func(q cfgxPoint) bool {
+			n := q.Node()
+			return n != nil && core.Mentions(info, n, coll) && !isOrderSort(n)
+		},
+		Cut: func(q cfgxPoint) bool { return q.Node() != nil && isOrderSort(q.Node()) },
+	})
+	if early {
+		return false, "`" + core.ExprStr(tp.Node()) + "` uses the collected keys before they are put in the order of their stateless rendering"
+	}
+	return true, "keys collected with their stateless rendering (option-less call on a local printer over a field-less namer), sorted by it before any other use"
+}
